@@ -2,3 +2,4 @@ INIT GenInit
 NEXT GenNext
 CONSTANT Thorough = TRUE
 CHECK_DEADLOCK FALSE
+CONSTANT NPat = 2
